@@ -429,12 +429,19 @@ func (comp) Extra(prop string, tier string, seed int64, scratch string) *core.Ex
 			break
 		}
 	}
+	// concurrency face of the property: refresh during a sweep
+	if tier == "thorough" {
+		refreshVsSweep(res, 200, 2000)
+	} else {
+		refreshVsSweep(res, 40, 2000)
+	}
 	res.Distinct = ncases
 	res.Counts["cases"] = ncases
 	res.Counts["wall_ms"] = int(time.Since(t0) / time.Millisecond)
 	res.Rule = "real time, spans 1-3 s: scripted cases (add-expire, sweep just before expiry, upsert with smaller/larger span, add shortening the life, " +
 		"peer upserts, self-sweeping cacher with CacheExpiry 1 s never swept by the harness" +
 		map[bool]string{true: ") plus 18x48 seeded random cases", false: ")"}[tier == "thorough"] +
+		"; refresh-vs-sweep rounds (expired unswept keys re-upserted with a long span while Sweep runs: all must be present afterwards)" +
 		"; every call bracketed by monotonic clock readings; 'present' asserted only while the upper bracket is inside the span, 'gone' only after a sweep " +
 		"whose lower bracket is beyond it; the cacher must drop an expired entry by itself within 3 sweep intervals; evaluations = assertions decided"
 	return res
